@@ -64,10 +64,20 @@ func judge(c Case, w *vkit.W) {
 		return
 	}
 	check := func(stage string) {
-		for _, p := range c.Probes {
-			want := (c.From == nil || c.From.ord() <= p.ord()) && (c.To == nil || p.ord() <= c.To.ord())
-			if got := f.Contains(p.date()); got != want {
-				w.Fail(c, "contains", fmt.Sprintf("%s: filter[%v, %v].Contains(%v) = %v, the inclusive interval says %v", stage, c.From, c.To, p, got, want))
+		// every probe is asked twice in a row, and the whole list once more in reverse order: the answer depends on the date
+		// alone, not on what was asked before
+		for round := 0; round < 2; round++ {
+			for i := range c.Probes {
+				p := c.Probes[i]
+				if round == 1 {
+					p = c.Probes[len(c.Probes)-1-i]
+				}
+				want := (c.From == nil || c.From.ord() <= p.ord()) && (c.To == nil || p.ord() <= c.To.ord())
+				for rep := 0; rep < 2; rep++ {
+					if got := f.Contains(p.date()); got != want {
+						w.Fail(c, "contains", fmt.Sprintf("%s: filter[%v, %v].Contains(%v) = %v (ask %d of this date, pass %d), the inclusive interval says %v", stage, c.From, c.To, p, got, rep+1, round+1, want))
+					}
+				}
 			}
 		}
 	}
